@@ -291,13 +291,13 @@ pub(crate) mod verif_array {
             }
         };
     }
-    //@ob name=C14.none.err harness=k_c14_none_err props=C14,C01 strength=complete fns=op::array::none stubs=2
+    //@ob name=C14.none.err harness=k_c14_none_err props=C14,C01 strength=complete fns=op::array::none stubs=2 cutdrop=1 timeout=200
     //@ desc="none(data,args) is Err when some(data,args) is Err (some by contract)"
     none_harness!(k_c14_none_err, 0);
-    //@ob name=C14.none.true harness=k_c14_none_true props=C14,C01 strength=complete fns=op::array::none stubs=2
+    //@ob name=C14.none.true harness=k_c14_none_true props=C14,C01 strength=complete fns=op::array::none stubs=2 cutdrop=1 timeout=200
     //@ desc="none is false when some is true"
     none_harness!(k_c14_none_true, 1);
-    //@ob name=C14.none.false harness=k_c14_none_false props=C14,C01 strength=complete fns=op::array::none stubs=2
+    //@ob name=C14.none.false harness=k_c14_none_false props=C14,C01 strength=complete fns=op::array::none stubs=2 cutdrop=1 timeout=200
     //@ desc="none is true when some is false"
     none_harness!(k_c14_none_false, 2);
 
